@@ -27,7 +27,7 @@ PATHS = ("cwrite", "block_to_file", "to_tim", "to_dat", "to_spec", "to_fft")
 
 
 def REQUIRED(tier):
-    return ["path:cwrite", "path:block_to_file", "path:to_tim", "path:to_dat", "path:to_spec", "path:to_fft",
+    return ["prep_outfile:no_arguments", "path:cwrite", "path:block_to_file", "path:to_tim", "path:to_dat", "path:to_spec", "path:to_fft",
             "readback_compared", "declared_width_checked", "spy:cwrite_calls", "dtype_mismatch_cases", "multi_call_writes", "path:reuse_name", "reuse_name:equal_length_products", "dotted_basename_pairs"]
 
 
@@ -138,7 +138,12 @@ def _run_cwrite(case, ctx):
     parts = [X[a:b] for a, b in zip([0] + cuts, cuts + [ns])]
     _spy["log"].clear()
     err, hdrlen_before = None, None
-    fw = hdr.prep_outfile(out, nbits=depth)
+    if depth == 8 and case["dseed"] % 2:
+        # the header already says 8 bits: the plain spelling (no nbits, no updates), after whatever this process wrote before
+        ctx.count("prep_outfile:no_arguments")
+        fw = hdr.prep_outfile(out)
+    else:
+        fw = hdr.prep_outfile(out, nbits=depth)
     try:
         hdrlen_before = os.path.getsize(out)
         for part in parts:
